@@ -13,7 +13,7 @@ RULE = (
     "population-tagged probabilities with value marks, raw nested products, sums incl. over-wide ranges, raw and "
     "compound fractions incl. equal numerator/denominator, One, Zero) built with the raw constructors, each "
     "canonicalised by the real canonicalize(e, ordering) with a random covering ordering (or None) and by "
-    "Canonicalizer(ordering).canonicalize; plus pairs (a, presentation-permutation of a) and (a, one semantic "
+    "Canonicalizer(ordering).canonicalize; plus the targeted tie / nested-fraction / repeated-factor cancellation classes; plus pairs (a, presentation-permutation of a) and (a, one semantic "
     "edit of a) through the real canonical_expr_equal. Post-conditions evaluate original and result under a free "
     "interpretation (mixture-of-products joint law over (population, name, world) random variables, exact "
     "rationals, 2 interpretations x all/48 value assignments). non-trivial = expression contains a Sum or a "
@@ -101,6 +101,11 @@ def run_shard(ctx):
     for i in range(n):
         ast = ge.rand_expr_ast(rng, OPTS, max_depth=4 if ctx.tier == "quick" else 5)
         run_ast(ctx, ast, rng, mode="canonicalize" if i % 5 else "Canonicalizer")
+    # the tie / re-flattening / cancellation classes of C11's targeted generator, judged for meaning here
+    from . import c11
+
+    for i in range(ctx.share({"quick": 6000, "thorough": 100000}[ctx.tier])):
+        run_ast(ctx, c11.targeted(rng), rng, mode="canonicalize" if i % 5 else "Canonicalizer")
     m = ctx.share({"quick": 6000, "thorough": 80000}[ctx.tier])
     for i in range(m):
         ast = ge.rand_expr_ast(rng, OPTS, max_depth=3)
